@@ -192,3 +192,16 @@ func (r *rich) traffic(c *fw.Case, intensity int) {
 		r.sigCount++
 	}
 }
+
+// c15QuickSigMsg builds a random signature-module message.
+func c15QuickSigMsg(c *fw.Case, e *vestEnv) sdk.Msg {
+	switch c.R.Intn(3) {
+	case 0:
+		return &sigtypes.MsgPublishReferencePayloadLink{Creator: e.owners[0].Bech(), Key: fmt.Sprintf("key-%d", c.R.Intn(6)), Value: fmt.Sprintf("value-%d", c.R.Intn(1000))}
+	case 1:
+		return &sigtypes.MsgStoreSignature{Creator: e.owners[0].Bech(), StorageKey: fmt.Sprintf("sk-%d", c.R.Intn(6)), SignatureJSON: fmt.Sprintf(`{"signature":"c2ln%d","algorithm":"ecdsaWithSha256","certificate":"cert"}`, c.R.Intn(10))}
+	}
+	k := chain.NewKey(fmt.Sprintf("sig-new-%d", c.R.Intn(1000)))
+	bz, _ := e.n.Enc.Marshaler.MarshalInterfaceJSON(k.Priv.PubKey())
+	return &sigtypes.MsgCreateAccount{Creator: e.owners[0].Bech(), AccAddressString: k.Bech(), PubKeyString: string(bz)}
+}
